@@ -142,6 +142,7 @@ class Execution:
     def apply(self, opt):
         loop = self.loop
         self.actions += 1
+        self.rt.act = self.actions
         self.schedule.append(opt[:3] if opt[0] == 'fire' else opt)
         if opt[0] == 'step':
             loop.step()
@@ -252,6 +253,50 @@ class EagerPolicy:
         self.i += 1
         self.branching.append(len(opts))
         return opts[min(c, len(opts) - 1)]
+
+
+class OffsetPolicy:
+    """step-eager, except that `second` is completed exactly `offset` actions after `first` was completed,
+    even though other work is still queued (a completion landing in the middle of the engine's reaction to
+    another completion).  first/second are node names (any run)."""
+
+    def __init__(self, first, second, offset):
+        self.first, self.second, self.offset = first, second, offset
+        self.armed = None
+
+    def choose(self, ex, opts):
+        fires = [o for o in opts if o[0] == 'fire']
+        if self.armed is not None:
+            if self.armed <= 0:
+                tgt = [o for o in fires if o[1] == self.second]
+                if tgt:
+                    self.armed = None
+                    return tgt[0]
+                if opts[0] != ('step',):
+                    self.armed = None
+            else:
+                if opts[0] == ('step',):
+                    self.armed -= 1
+                    return opts[0]
+                self.armed = 0
+                tgt = [o for o in fires if o[1] == self.second]
+                if tgt:
+                    self.armed = None
+                    return tgt[0]
+        if opts[0] == ('step',):
+            return opts[0]
+        # quiescent: prefer `first`, keep `second` for last
+        pick = None
+        for o in opts:
+            if o[0] == 'fire' and o[1] == self.first:
+                pick = o
+                break
+        if pick is None:
+            rest = [o for o in opts if not (o[0] == 'fire' and o[1] == self.second)]
+            pick = (rest or opts)[0]
+        if pick[0] == 'fire' and pick[1] == self.first and self.armed is None:
+            self.armed = self.offset
+        return pick
 
 
 class ScriptPolicy:
